@@ -10,6 +10,7 @@
 From Coq Require Import List Bool Arith Permutation Sorting.Sorted String.
 From CliUtils Require Import Model.ObjSet Model.ObjId Model.Graph Model.DepGraph
      Proofs.ObjIdProofs Proofs.GraphProofs Proofs.DepGraphProofs Proofs.C14Proofs.
+From CliUtils Require Import Generated.SourceTables Proofs.SourceTablesAgree.
 Import ListNotations.
 
 Section C14_graph.
@@ -229,6 +230,12 @@ Example C14_example_implicit :
   id_sort_objs ex_objs = Some (mkSorted [[nsX; crdF]; [cmX]; [crX]] None []).
 Proof. vm_compute. reflexivity. Qed.
 
+(* the kind-order tables of the model are the ones extracted from
+   pkg/ordering/sort.go on this run (harness/cmd/gentables) *)
+Theorem C14_tables_from_source :
+  ObjId.order_first = src_order_first /\ ObjId.order_last = src_order_last.
+Proof. exact order_tables_from_source. Qed.
+
 Print Assumptions C14_total.
 Print Assumptions C14_partition.
 Print Assumptions C14_order.
@@ -255,3 +262,4 @@ Print Assumptions C14_example_reverse_with_cycle.
 Print Assumptions C14_example_graph.
 Print Assumptions C14_example_objs.
 Print Assumptions C14_example_implicit.
+Print Assumptions C14_tables_from_source.
